@@ -1,6 +1,6 @@
 SPECIFICATION Spec
-CONSTANT Stride = 2
-CONSTANT Thin = 1
+CONSTANT Stride = 3
+CONSTANT Thin = 3
 CONSTANT Sample = 1
 INVARIANT Emit
 INVARIANT NonVacuous
